@@ -43,6 +43,12 @@ type NDFault struct {
 
 type NDCase struct {
 	Pool      int        `json:"pool"`
+	// PoolA (> 0): the dialling node is configured with another pool size than the accepting one
+	// (the acceptor's size decides how many links the connection gets)
+	PoolA int `json:"pool_a,omitempty"`
+	// DialBack: the connection is opened by the receivers' node, so the senders write on the accepting
+	// side of every link (which does not re-dial a lost link: the other side does and joins it again)
+	DialBack bool `json:"dial_back,omitempty"`
 	Segment   bool       `json:"segment"`
 	Skew      []int      `json:"skew"`
 	MaxSizeB  int        `json:"max_size_b"` // MaxMessageSize of the receiving node
@@ -122,6 +128,10 @@ func ndPayload(id int, typ string, size int) any {
 
 func genNDCase(r *simkit.Rand, tier string, fifo bool) *NDCase {
 	c := &NDCase{Pool: r.Range(1, 3), Segment: r.Chance(0.7), RFiller: r.Range(0, 7)}
+	if r.Chance(0.4) {
+		c.PoolA = r.Range(1, 4)
+	}
+	c.DialBack = r.Chance(0.35)
 	for i := 0; i < 4; i++ {
 		c.Skew = append(c.Skew, simkit.Pick(r, 1, 1, 2, 10, 100, 1000))
 	}
@@ -263,6 +273,7 @@ type ndSent struct {
 	op     NDOp
 	err    error
 	reply  any
+	step   int // scheduler step at which the send was issued
 }
 
 type ndRun struct {
@@ -279,6 +290,7 @@ type ndRun struct {
 	issued   int
 	faultsAt map[int][]NDFault
 	tail     []int // ids of the messages sent long after the last fault
+	cutSteps []int // scheduler steps at which a link was cut
 }
 
 func compressionOf(s NDSender) gen.Compression {
@@ -316,7 +328,11 @@ func runDelivery(prop string, e *simkit.Env, c *NDCase) *ndRun {
 	for _, f := range c.Faults {
 		r.faultsAt[f.AfterN] = append(r.faultsAt[f.AfterN], f)
 	}
-	r.a = simkit.StartNetNode(e, sn, simkit.NetNodeOptions{Name: "a@h1", Cookie: "secret", PoolSize: c.Pool})
+	poolA := c.Pool
+	if c.PoolA > 0 {
+		poolA = c.PoolA
+	}
+	r.a = simkit.StartNetNode(e, sn, simkit.NetNodeOptions{Name: "a@h1", Cookie: "secret", PoolSize: poolA})
 	r.b = simkit.StartNetNode(e, sn, simkit.NetNodeOptions{Name: "b@h2", Cookie: "secret", PoolSize: c.Pool, MaxMessageSize: c.MaxSizeB})
 	if r.a == nil || r.b == nil {
 		return nil
@@ -391,9 +407,25 @@ func runDelivery(prop string, e *simkit.Env, c *NDCase) *ndRun {
 		return r
 	}
 	// make the connection before the streams start (its establishment is C15's subject)
-	if _, err := r.a.Network().GetNode("b@h2"); err != nil {
-		e.Fail(prop+"/unexpected-failure", "nodes with the same cookie could not connect: %v", err)
+	var cerr error
+	if c.DialBack {
+		_, cerr = r.b.Network().GetNode("a@h1")
+		e.Probe("senders-on-the-accepting-side")
+	} else {
+		_, cerr = r.a.Network().GetNode("b@h2")
+	}
+	if cerr != nil {
+		e.Fail(prop+"/unexpected-failure", "nodes with the same cookie could not connect: %v", cerr)
 		return r
+	}
+	// the streams start when the pool is complete (the accepting side decides its size; a slow link
+	// takes seconds to join): senders change links whenever the pool changes, see the known finding
+	wantLinks := c.Pool
+	if c.DialBack {
+		wantLinks = poolA
+	}
+	for i := 0; i < 300 && len(sn.LiveLinks()) < wantLinks; i++ {
+		e.Sleep(200 * time.Millisecond)
 	}
 	e.Settle(2 * time.Second)
 
@@ -431,7 +463,7 @@ func runDelivery(prop string, e *simkit.Env, c *NDCase) *ndRun {
 					to = r.rpid[op.To]
 				}
 				msg := ndMsg{ID: id, Data: ndPayload(id, op.Typ, op.Size)}
-				rec := ndSent{sender: si, seq: j, id: id, op: op}
+				rec := ndSent{sender: si, seq: j, id: id, op: op, step: e.Step()}
 				r.mu.Lock()
 				r.sent = append(r.sent, rec)
 				idx := len(r.sent) - 1
@@ -539,6 +571,9 @@ func (r *ndRun) applyFault(f NDFault) {
 	switch f.Kind {
 	case "cutlink":
 		r.e.Logf("fault: cut link %d", lk.ID)
+		r.mu.Lock()
+		r.cutSteps = append(r.cutSteps, r.e.Step())
+		r.mu.Unlock()
 		lk.Cut()
 	case "stall":
 		r.e.Logf("fault: stall link %d for %dms", lk.ID, f.Ms)
